@@ -73,7 +73,7 @@ def plan(tier):
 def setup_worker(ctx):
     warnings.simplefilter('ignore')
     ctx.state['reach'] = Reach(REACH).start()
-    ctx.state['inv'] = CIMIntInvariant().start()
+    ctx.state['inv'] = CIMIntInvariant(ctx).start()
 
 
 def finish_worker(ctx):
